@@ -151,39 +151,23 @@ Theorem C04_planar_angle : forall t : R,
 Proof. intros; split; gen_ring. Qed.
 Print Assumptions C04_planar_angle.
 
-(* ---------------------------------------------------------------- AngVec: the two classes DISAGREE for a non-unit axis.
-   Full statement (what the property asks; SO3.AngVec normalises the axis, so any non-zero axis is meant):
-     forall t v, v <> 0 -> q2r_ref (tr_UQ_AngVec t v) = tr_SO3_AngVec t v
-   It is false of the code as it is: UnitQuaternion.AngVec multiplies sin(t/2) by the axis WITHOUT normalising it
-   (and builds the object with norm=False), so the result is not even a unit quaternion. *)
-Theorem C04_AngVec_agree_refuted : exists (t : R) (v : V3 R), v <> (0,0,0) /\
-  q2r_ref Rops (tr_UQ_AngVec Rops t v) <> tr_SO3_AngVec Rops t v /\ qnormsq Rops (tr_UQ_AngVec Rops t v) <> 1.
-Proof.
-  exists PI, (2,0,0). split; [intros E; injection E; intros; lra|].
-  assert (Ec : cos (1/2*PI) = 0) by (replace (1/2*PI) with (PI/2) by field; apply cos_PI2).
-  assert (Es : sin (1/2*PI) = 1) by (replace (1/2*PI) with (PI/2) by field; apply sin_PI2).
-  split.
-  - autounfold with smgen smlin. sm_simpl. rewrite Ec, Es, cos_PI. intros E. injection E. intros. lra.
-  - autounfold with smgen smlin. sm_simpl. rewrite Ec, Es. lra.
-Qed.
-Print Assumptions C04_AngVec_agree_refuted.
-
-Theorem C04_AngVec_agree_partial : forall (t : R) (v : V3 R), normsq3 Rops v = 1 ->
+(* ---------------------------------------------------------------- AngVec: every class normalises the axis
+   (UnitQuaternion.AngVec did not before /repo commit 50fbf86; the former C04_AngVec_agree_refuted / _partial pair is
+   replaced by the full statement).  The traces are the non-zero-axis path (a zero axis gives the identity in every
+   class, measured by the oracle); on it the formulas agree for EVERY axis with v.v > 0. *)
+Theorem C04_AngVec_agree : forall (t : R) (v : V3 R), 0 < normsq3 Rops v ->
   q2r_ref Rops (tr_UQ_AngVec Rops t v) = tr_SO3_AngVec Rops t v /\ qnormsq Rops (tr_UQ_AngVec Rops t v) = 1.
 Proof.
-  intros t v Hv. split.
-  - gen_unfold. half_angle t. sqrt_one. tuple_eq ltac:(unit_eq).
-  - gen_unfold. half_angle t. unit_eq.
+  intros t v Hv. gen_unfold.
+  match goal with |- context [sqrt ?N] =>
+    assert (Hn : sqrt N * sqrt N = N) by (apply sqrt_sqrt; lra);
+    assert (Hn0 : 0 < sqrt N) by (apply sqrt_lt_R0; lra);
+    set (n := sqrt N) in *; rewrite <- ?Hn end.
+  half_angle t. clearbody n. split.
+  - sqrt_one. tuple_eq ltac:(unit_eq).
+  - sqrt_one. unit_eq.
 Qed.
-Print Assumptions C04_AngVec_agree_partial.
-
-(* what the UnitQuaternion constructor computes for ANY axis is the quaternion of the un-normalised axis:
-   it agrees with SO3.AngVec after the axis is normalised by hand *)
-Theorem C04_AngVec_scaled_axis : forall (t k : R) (v : V3 R), 
-  tr_UQ_AngVec Rops t (vscale3 Rops k v) = 
-  (let '(s,x,y,z) := tr_UQ_AngVec Rops t v in (s, k*x, k*y, k*z)).
-Proof. gen_ring. Qed.
-Print Assumptions C04_AngVec_scaled_axis.
+Print Assumptions C04_AngVec_agree.
 
 (* ---------------------------------------------------------------- EulerVec (both classes normalise; any non-zero vector) *)
 Theorem C04_EulerVec_agree : forall w : V3 R, 0 < normsq3 Rops w ->
@@ -199,5 +183,5 @@ Qed.
 Print Assumptions C04_EulerVec_agree.
 
 (* non-vacuity of the hypotheses used in this file *)
-Example C04_a_nonvacuous : qnormsq Rops (3/5, 4/5, 0, 0) = 1 /\ normsq3 Rops (3/5, 0, 4/5) = 1 /\ 0 < normsq3 Rops (1, 2, 3).
+Example C04_a_nonvacuous : qnormsq Rops (3/5, 4/5, 0, 0) = 1 /\ 0 < normsq3 Rops (2, 0, 0) /\ 0 < normsq3 Rops (1, 2, 3).
 Proof. autounfold with smlin; sm_simpl; repeat split; lra. Qed.
